@@ -125,6 +125,10 @@ impl Property for C17 {
                 if rng.chance(1, 3) {
                     case.opts.push(vec!["--only-objects-and-arrays".into()]);
                 }
+                if rng.chance(1, 5) {
+                    // skipped values still count: the first row printed has &index = K
+                    case.opts.push(vec![format!("--skip={}", rng.range(1, 3))]);
+                }
                 if noisy && rng.chance(1, 2) {
                     case.opts.push(policy_opt(*rng.pick(&[Policy::Stderr, Policy::Ignore])));
                 }
@@ -625,6 +629,7 @@ fn check_context(case: &Case, ctx: &mut Ctx) -> Option<Violation> {
         let ok = (o[0] == "--select" && o.len() == 2 && CONTEXT_SELECTS.iter().any(|(s, n)| o[1] == format!("{s}={n}")))
             || o[0] == "--only-objects-and-arrays"
             || (o[0] == "--set" && o.len() == 2)
+            || o[0].starts_with("--skip=")
             || o[0].starts_with("--on-error=");
         if !ok {
             ctx.stats.invalid = true;
@@ -682,7 +687,12 @@ fn check_context(case: &Case, ctx: &mut Ctx) -> Option<Violation> {
             _ => {}
         }
     }
-    let as_dir = use_files && case.param("as_dir") == 1;
+    let skip_k: usize = case
+        .opts
+        .iter()
+        .find_map(|o| o[0].strip_prefix("--skip=").and_then(|v| v.parse().ok()))
+        .unwrap_or(0);
+    let as_dir = use_files && case.param("as_dir") == 1 && skip_k == 0;
     let (out, paths) = if as_dir {
         let Some(dir) = ctx.fresh_dir() else {
             ctx.harness_error = Some("cannot create a directory".into());
@@ -766,22 +776,31 @@ fn check_context(case: &Case, ctx: &mut Ctx) -> Option<Violation> {
         re.append(&mut known);
         known = re;
     }
-    if rows.len() != known.len() {
+    if rows.len() != known.len().saturating_sub(skip_k) {
         return viol(
             "C17.context",
             format!(
-                "{} rows for {} processed values ({} files, only-objects={only_obj})",
+                "{} rows for {} processed values ({} files, only-objects={only_obj}, --skip={skip_k})",
                 rows.len(),
                 known.len(),
                 files.len()
             ),
         );
     }
+    // ordinal of every processed value within its file
+    let mut ord_in_file: Vec<u64> = Vec::with_capacity(known.len());
+    for (i, k) in known.iter().enumerate() {
+        ord_in_file.push(if i > 0 && known[i - 1].file == k.file { ord_in_file[i - 1] + 1 } else { 0 });
+    }
+    if skip_k > 0 {
+        ctx.stats.probe("context rows behind --skip");
+    }
     let lss: Vec<Vec<usize>> = files.iter().map(|f| line_starts(f)).collect();
     let mut in_file = 0u64;
     let mut prev: Option<(usize, usize)> = None; // (file, end offset)
     let mut contains_violation: Option<Violation> = None;
-    for (j, (row, k)) in rows.iter().zip(known.iter()).enumerate() {
+    for (j0, (row, k)) in rows.iter().zip(known.iter().skip(skip_k)).enumerate() {
+        let j = j0 + skip_k;
         let v: serde_json::Value = match serde_json::from_str(row) {
             Ok(v) => v,
             Err(e) => {
@@ -790,9 +809,11 @@ fn check_context(case: &Case, ctx: &mut Ctx) -> Option<Violation> {
         };
         let num = |n: &str| v.get(n).and_then(serde_json::Value::as_u64);
         if prev.map_or(true, |p| p.0 != k.file) {
-            in_file = 0;
             prev = None;
         }
+        in_file = ord_in_file[j];
+        // (the first row printed may not be the first value of its file)
+        let mid_file_start = prev.is_none() && in_file > 0;
         ctx.stats.probe("context rows checked");
         ctx.stats.nontrivial = true;
         if have("i") && num("i") != Some(j as u64) {
@@ -850,7 +871,7 @@ fn check_context(case: &Case, ctx: &mut Ctx) -> Option<Violation> {
                         format!("row {j}: range starts at {s} but the previous range ended at {pe} and nothing was skipped in between"),
                     );
                 }
-            } else if !k.gap_before_dirty && s != 0 {
+            } else if !k.gap_before_dirty && s != 0 && !mid_file_start {
                 return viol(
                     "C17.pos-contiguous",
                     format!("row {j}: first value of file {} has start {s}, expected 0 (only whitespace precedes it)", k.file),
@@ -882,10 +903,40 @@ fn check_context(case: &Case, ctx: &mut Ctx) -> Option<Violation> {
         } else {
             prev = Some((k.file, 0));
         }
-        in_file += 1;
         let _ = k.scalar;
     }
-    if contains_violation.is_none() && !as_dir && rows.len() >= 2 {
+    if contains_violation.is_none() && !as_dir && skip_k == 0 && !rows.is_empty() {
+        // an & selector inside --group-by: every value is its own group, named by its ordinal
+        let mut g = case.clone();
+        g.opts.retain(|o| o[0] != "--select");
+        g.opts.push(vec!["--group-by=(stringify &index)".into()]);
+        g.opts.push(vec!["--style=consise".into()]);
+        let b = if use_files {
+            let p2 = ctx.fresh_paths(files.len());
+            ctx.exec(sim_files_spec(&g, &p2, &files, &[]))
+        } else {
+            let input = case.stream();
+            ctx.exec(case_spec(&g, &input))
+        };
+        if b.outcome.is_ok() {
+            let keys: Vec<String> = serde_json::from_slice::<serde_json::Value>(b.obs.stdout.split(|c| *c == b'\n').next().unwrap_or(b""))
+                .ok()
+                .and_then(|v| v.as_object().map(|o| o.keys().cloned().collect()))
+                .unwrap_or_default();
+            let mut keys = keys;
+            let mut want: Vec<String> = (0..known.len()).map(|i| i.to_string()).collect();
+            keys.sort();
+            want.sort();
+            ctx.stats.probe("&index inside --group-by checked");
+            if keys != want {
+                return viol(
+                    "C17.index",
+                    format!("grouped by (stringify &index), the groups are {keys:?} instead of one per processed value {want:?}"),
+                );
+            }
+        }
+    }
+    if contains_violation.is_none() && !as_dir && skip_k == 0 && rows.len() >= 2 {
         // the selectors belong to their value even when a stage holds the value back: two
         // sort keys, a constant and &index descending, must give exactly the rows in reverse
         let mut sorted = case.clone();
